@@ -3,7 +3,7 @@ TITLE = 'GC-matched background loci are valid, disjoint from the input and GC-ba
 CONTRACT_MODULES = ['contracts.match_c']
 FUNCTIONS = ['tangermeme.match.extract_matching_loci#bin-matching', 'tangermeme.match._extract_and_filter_chrom#signal-window']
 BOUNDED = 'bounded.C17'
-BOUNDED_BUDGET = {'quick': 60, 'thorough': 600}
+BOUNDED_BUDGET = {'quick': 120, 'thorough': 600}
 LEVEL = 'other'
 EXPLANATION = ('deductive: signal window of _extract_and_filter_chrom (fragment: the four statements tiling the bigwig track): values[t] = sum of the track over the centred out_window of tile t, for every 0 < out_window <= in_window incl. in_window == out_window and odd differences, complete tiles only; (fragment contract over the real statements of the exact-bin matching and nearest-bin spill, for any non-negative per-bin counts and any number of bins; two nested loop invariants incl. break): conservation bg + matched = bg0, matched >= min(loci0, bg0), matched <= bg0, unmatched input loci remain only when the eligible background is exhausted (bin 0 included). bounded: tiling, N / signal filters, masks, no duplicates, n_jobs invariance on synthetic genomes')
 ASSUMPTIONS = ['the per-bin counts handed to the matching are non-negative (established by the preceding code, bounded)', 'FASTA / bigwig readers, joblib result order, seeded shuffle: bounded only']
